@@ -282,7 +282,11 @@ func nilTestedBeforeUse(call *ssa.Call) (bool, string) {
 
 // ruleNumericAccessors: numeric decoding delegates to strconv.
 func ruleNumericAccessors(c *Ctx) {
-	rid := "R10.a"
+	ruleNumericAccessorsAs(c, "R10.a")
+}
+
+func ruleNumericAccessorsAs(c *Ctx, rid string) {
+	c.rule(rid, "the numeric accessors of proto.Message (Integer, Float, ...) return the value and the error of one strconv.Atoi/ParseInt/ParseFloat call over the payload: overflow and malformed numbers are errors, never wrapped or truncated values (no hand-rolled digit loop)")
 	n := 0
 	for _, fn := range c.P.RepoFuncs(pkgProto) {
 		if fn.Signature.Recv() == nil || !strings.HasSuffix(fn.Signature.Recv().Type().String(), "proto.Message") {
